@@ -102,11 +102,33 @@ def c10_2(rep, ix, R="C10.2"):
         lex = var_bound_to_call(fn, "blackbirdLexer")
         ts = var_bound_to_call(fn, "CommonTokenStream")
         ps = var_bound_to_call(fn, "blackbirdParser")
+        if len(ts) == 1 and len(ps) == 1 and len(lex) == 0:
+            # the token stream is fed by something that is not the generated lexer
+            src = resolve(fn, ts[0][1].args[0]) if ts[0][1].args else None
+            rep.bad(R, ix.site(f, ts[0][1]), "%s: the token stream is produced by the generated blackbirdLexer itself" % q.split(".")[-1],
+                    "the stream is built on `%s`: tokens are no longer the grammar's token sequence for the text" % (u(src) if src is not None else None), key=q + "|lexer class")
+            continue
         if not (len(lex) == 1 and len(ts) == 1 and len(ps) == 1):
             raise Inconclusive("%s: expected one blackbirdLexer / CommonTokenStream / blackbirdParser construction each, found %d/%d/%d" % (q, len(lex), len(ts), len(ps)))
-        lv, lc, _ = lex[0]
-        tv, tc, _ = ts[0]
+        lv, lc, lstmt = lex[0]
+        tv, tc, tstmt = ts[0]
         pv, pc, pstmt = ps[0]
+        # every load parses: the pipeline statements are unconditional statements of the function body
+        top = all(st in fn.body for st in (lstmt, tstmt, pstmt))
+        rep.check(top, R, ix.site(f, pstmt), "%s: lexer, token stream and parser are constructed unconditionally (every call parses its own input; no cached or reused parse)" % q.split(".")[-1],
+                  "the parse is conditional", key=q + "|unconditional")
+        from . import common as _c
+        E = _c.eff(rep)
+        live = sorted(g for g in E.summ[q].reads_globals if g in E.written_globals and g not in ("GLOBAL:auxiliary._VAR", "GLOBAL:auxiliary._PARAMS"))
+        rep.check(not live, R, ix.site(f), "%s consults no module-level state besides the variable/parameter tables (the outcome depends on the given text only)" % q.split(".")[-1],
+                  "reads %s" % live, key=q + "|globals")
+        # the tree that is walked is the direct result of this parser's start()
+        walks = [c for c in walk_shallow(fn) if isinstance(c, ast.Call) and isinstance(c.func, ast.Attribute) and c.func.attr == "walk" and len(c.args) == 2]
+        rets = [r for r in walk_shallow(fn) if isinstance(r, ast.Return) and r.value is not None]
+        for w in walks:
+            t = resolve(fn, w.args[1])
+            rep.check(isinstance(t, ast.Call) and u(t.func) == "%s.start" % pv, R, ix.site(f, w), "%s: the tree that is walked is the result of this parser's start()" % q.split(".")[-1],
+                      "walks `%s`" % u(t), key=q + "|walk tree")
         for v in (lv, tv, pv):
             rep.check(len(assigns(fn, v)) == 1, R, ix.site(f), "%s: `%s` is bound exactly once" % (q, v), key="%s|once %s" % (q, v))
         # lexer input
@@ -359,6 +381,8 @@ def c10_5(rep, ix, M):
                 from ..py.ctxtypes import GENERIC_TERM
                 n_acc += 1
                 rep.check(attr in GENERIC_TERM, R, ix.site(f, node), "`%s`: %s exists on TerminalNode" % (" ".join(u(node).split())[:70], attr), key="term|" + attr)
+    # presence of dereferenced children on the incomplete trees the listener sees
+    nullness(rep, R, ix, f, M, cc, ty)
     # definitely assigned names (simple: a name first bound only inside an if/elif chain without else, used later)
     maybe = possibly_unbound(fn)
     for name, use, why in maybe:
@@ -369,6 +393,64 @@ def c10_5(rep, ix, M):
             rep.bad(R, ix.site(f, use), "name `%s` is definitely assigned before use" % name, why, key="unbound|" + name)
     if not maybe:
         rep.ok(R, ix.site(f), "all names are definitely assigned before use")
+
+
+def nullness(rep, R, ix, f, M, cc, ty):
+    """a dereferenced accessor result must be attached at every position of the context's rule at which an error can be reported
+    (positions the caller's prediction has already verified - FIRST_k refinement - are excluded), or be guarded by a truthiness test"""
+    from ..gram.firstk import FirstK, positions
+    from ..py import exh
+    from ..py.ctxtypes import Acc
+    from .c02 import guarded_by
+    G = M.G
+    F = FirstK(G, 2)
+    fn = f.node
+    acc_of = {id(n): (recv, attr, is_call) for n, recv, attr, is_call in ty.accesses}
+    for node, recv, attr, is_call in ty.accesses:
+        base = node.func.value if is_call else node.value
+        if not (isinstance(base, ast.Call) and isinstance(base.func, ast.Attribute) and id(base) in acc_of and not base.args):
+            continue
+        brecv, battr, _ = acc_of[id(base)]
+        cts = [x[4:] for x in brecv if x.startswith("ctx:")]
+        if len(cts) != 1:
+            continue
+        X = cts[0]
+        lk = cc.lookup(X, battr)
+        if not isinstance(lk, Acc) or lk.multi != "single":
+            continue
+        body, where = exh.body_of(G, X)
+        if body is None or battr not in exh.names_in(body):
+            continue
+        txt = "%s.%s()" % (u(base.func.value), battr)
+        site = ix.site(f, node)
+        if guarded_by(fn, node, txt):
+            rep.ok(R, site, "`%s` is dereferenced under a test that establishes its presence" % txt)
+            continue
+        rv = base.func.value
+        rule = where.split("#")[0]
+        if isinstance(rv, ast.Name):
+            glen = F.guaranteed_prefix(rule)
+            pos = positions(G, body)
+            if rv.id == "ctx":
+                P = [p for p in pos if p[0] in ("token", "decision") and p[2] >= glen]
+                missing = [p for p in P if battr not in p[3]]
+                role = "the context in which the error is reported"
+            else:
+                P = [p for p in pos if p[0] == "call" and p[2] + p[4] > glen]
+                missing = [p for p in P if battr not in p[3] and p[1] != battr]
+                role = "an ancestor of the context in which the error is reported"
+            if missing:
+                p0 = missing[0]
+                rep.bad(R, site, "`%s` is attached whenever %s is a %s" % (txt, role, X),
+                        "an error reported at the %s %s of rule %s (token offset %d) finds %s not yet attached: AttributeError on None instead of BlackbirdSyntaxError" % (p0[0], p0[1], rule, p0[2], battr),
+                        key="null|%s.%s|%s" % (X, battr, rv.id))
+            else:
+                rep.ok(R, site, "`%s` is attached at all %d error positions of rule %s (the first %d token(s) are verified by the caller's prediction)" % (txt, len(P), rule, glen))
+        else:
+            # receiver is itself an accessor result: a completed child; every mandatory child of its rule is attached
+            prof = exh.profiles(body)
+            ok = all(battr in p for p in prof)
+            rep.check(ok, R, site, "`%s`: %s is present in every complete %s node" % (txt, battr, where), key="null|%s.%s|child" % (X, battr))
 
 
 def possibly_unbound(fn):
